@@ -25,6 +25,12 @@ def check(ctx):
   r3(ctx)
   r4(ctx)
   r5(ctx)
+  from . import c05
+  ctx.rule('C05.R3', 'shared with C05: a leaving endpoint is forgotten by the heap AND by the idle/pending sets (an endpoint left behind in the idle set is picked by a later expansion: '
+                     'a departed member gets a node and an open channel again, which no removal closes)')
+  c05.r3(ctx)
+  from . import c03 as _c03
+  _c03.find_node(ctx, 'C04.R4')
 
 
 def r1_r2(ctx):
